@@ -625,7 +625,7 @@ def _metric_selection():
             if type(m) is not cls:
                 return cases, {"name": key, "metric.get-returned": type(m).__name__}
         for name, cls in verif.output.get_all():
-            if not cls.is_valid() or cls.__module__ != "verif.output" or cls.__name__ in ("Standard", "Hist", "Sort", "Auto"):
+            if not cls.is_valid() or cls.__module__ != "verif.output" or cls.__name__ in ("Standard", "Hist", "Sort", "Auto", "AutoCorr", "AutoCov"):
                 continue
             key = name.lower()
             rec = run_driver(["A", "B", "-m", key, "-r", "1,2", "-q", "0.1,0.9"])
